@@ -5,6 +5,8 @@ mod coqfmt;
 mod prng;
 mod udp_swarm;
 mod http_swarm;
+mod valid_until;
+mod export_crash;
 
 use std::collections::HashMap;
 
@@ -99,6 +101,9 @@ fn main() {
     match argv[1].as_str() {
         "udp-swarm" => udp_swarm::run(&args),
         "http-swarm" => http_swarm::run(&args),
+        "valid-until" => valid_until::run(&args),
+        "export-crash" => export_crash::run(&args),
+        "export-child" => export_crash::child(&args),
         other => {
             eprintln!("unknown suite {}", other);
             std::process::exit(2);
